@@ -15,7 +15,7 @@ ID = "C04"
 LEVEL = "model_checking"
 LEVEL_TEXT = ("Explicit-state exploration of the address space on the real Bus/Address objects: every (bus, address) "
               "state of the stated set (thorough: all 2^24 addresses of both built-in buses) and every `+n` transition "
-              "from it is executed and compared with an independent bus model; a complete lattice of 216 `.map` "
+              "from it is executed and compared with an independent bus model; a complete lattice of 324 `.map` "
               "configurations is explored the same way through both construction routes. The domain is finite, so within "
               "the bound this is a complete decision, which eight unit tests probing four addresses cannot give.")
 LEVEL_NOTE = ("Trusted: mc/ref/bus.py (40 lines of arithmetic written from the property statement). Below-window addresses "
@@ -40,9 +40,9 @@ INCS = [0, 1, 2, 3, 0xFF, 0x100, 0x7FFF, 0x8000, 0x8001, 0xFFFF, 0x10000, 0x1000
 
 def bound(tier):
     return ("all 2^24 addresses x 2 built-in buses; advance from every in-window ROM address x 12 increments; "
-            "216 .map configurations x 2 construction routes" if tier == "thorough" else
+            "324 .map configurations x 2 construction routes" if tier == "thorough" else
             "boundary address set of every bank x 2 built-in buses; advance x 12 increments + 144 (m,n) pairs; "
-            "216 .map configurations x 2 construction routes")
+            "324 .map configurations x 2 construction routes")
 
 
 # ---- configuration lattice -------------------------------------------------------------
@@ -50,7 +50,7 @@ def bound(tier):
 def lattice():
     cfgs = []
     for first, count, size, mirror, ram, two in itertools.product(
-            (0x00, 0x40, 0x80), (1, 2, 0x30), (0x8000, 0x10000), ("none", "plus80", "disjoint"), (False, True),
+            (0x00, 0x40, 0x80), (1, 2, 0x30), (0x8000, 0x10000), ("none", "plus80", "disjoint"), (False, True, "mirrored"),
             (False, True)):
         last = first + count - 1
         if mirror == "none":
@@ -65,7 +65,8 @@ def lattice():
         if two:
             decls.append(("3", (0xF0, 0xF3), 0x10000 if size == 0x8000 else 0x8000, False, None))
         if ram:
-            decls.append(("2", (0x7E, 0x7F), 0x10000, True, None))
+            # RAM range, optionally with its own mirror banks (mirror of RAM is RAM: no file offset, plain +n)
+            decls.append(("2", (0x7E, 0x7F), 0x10000, True, (0xEE, 0xEF) if ram == "mirrored" else None))
         cfgs.append(decls)
     return cfgs
 
